@@ -64,6 +64,11 @@ PAIRS = [
     ({"id": "http://base.example/root.json", "$id": "http://other.example/dir/root.json", "items": {"$ref": "doc.json"}}, [1, "s"]),
     ({"type": "integer", "maximum": 3, "exclusiveMaximum": True}, 3.0), ({"enum": [1]}, 1), ({"type": "string"}, "s"),
     (True, 1), (False, 1),
+    # several failures at once, a boolean `false` subschema (its error names no keyword) among them
+    ({"properties": {"a": False, "b": {"type": "string"}}}, {"a": 1, "b": 1}), ({"items": [False, {"type": "null"}]}, [1, 1]),
+    ({"anyOf": [False, {"type": "string"}, {"properties": {"a": False}}]}, {"a": 1}), ({"additionalProperties": False, "required": ["z"], "minProperties": 3}, {"a": 1}),
+    ({"properties": {"a": {"type": "string"}, "b": {"type": "string"}}, "required": ["c"]}, {"a": 1, "b": 2}),
+    ({"oneOf": [{"type": "string"}, {"anyOf": [{"type": "null"}, False]}]}, 1),
     # local references below the schema's own id: the selected class decides which keyword is the id
     ({"id": "http://base.example/root.json", "definitions": {"a": {"type": "integer"}}, "properties": {"p": {"$ref": "#/definitions/a"}}}, {"p": "x"}),
     ({"$id": "http://base.example/root.json", "definitions": {"a": {"type": "integer"}}, "properties": {"p": {"$ref": "#/definitions/a"}}}, {"p": "x"}),
@@ -107,14 +112,38 @@ def outcome(fn):
         return ("exc:" + type(e).__name__,)
 
 
+class Expected(tuple):
+    """What the selected class says, without going through best_match: ("valid",) | ("SchemaError", fp) |
+    ("ValidationError", <set of fingerprints of the class's errors and of the errors in their context trees>) | ..."""
+
+    def __eq__(self, have):
+        if self[0] == "ValidationError" and isinstance(self[1], frozenset):
+            return isinstance(have, tuple) and len(have) == 2 and have[0] == "ValidationError" and have[1] in self[1]
+        return tuple.__eq__(self, have)
+
+    def __ne__(self, have):
+        return not self.__eq__(have)
+
+    __hash__ = tuple.__hash__
+
+
 def expected_outcome(cls, schema, inst):
-    def run():
+    from vf.obs.fingerprint import closure
+    try:
         cls.check_schema(schema)
         resolver = RefResolver("", schema, store=dict(STORE))
-        err = X.best_match(cls(schema, resolver=resolver).iter_errors(inst))
-        if err is not None:
-            raise err
-    return outcome(run)
+        errs = list(cls(schema, resolver=resolver).iter_errors(inst))
+    except X.SchemaError as e:
+        return Expected(("SchemaError", fp(e)))
+    except X.RefResolutionError:
+        return Expected(("RefResolutionError",))
+    except X.UnknownType:
+        return Expected(("UnknownType",))
+    except Exception as e:
+        return Expected(("exc:" + type(e).__name__,))
+    if not errs:
+        return Expected(("valid",))
+    return Expected(("ValidationError", frozenset(fp(e) for e in closure(errs))))
 
 
 def spellings(rng, registered_keys, future=()):
@@ -154,7 +183,7 @@ def check_dispatch(rec, rng, registered, history, scratch, future=()):
             want = expected_outcome(latest, frag, inst)
             have = outcome(lambda: jsonschema.validate(inst, frag, resolver=RefResolver("", frag, store=dict(STORE))))
             rec.count("validate_checked")
-            if have != want:
+            if want != have:
                 rec.violation("validate-dispatch", {"history": history, "schema": frag, "instance": inst}, "validate gives %r, selected class %r" % (have, want))
             continue
         for kind, spelling, key in spellings(rng, sorted(registered), future):
@@ -200,7 +229,7 @@ def check_dispatch(rec, rng, registered, history, scratch, future=()):
                 have = outcome(lambda: jsonschema.validate(inst, schema, resolver=RefResolver("", schema, store=dict(STORE))))
             want = expected_outcome(want_cls, schema, inst)
             rec.count("validate_checked")
-            if have != want:
+            if want != have:
                 rec.violation("validate-dispatch", case, "jsonschema.validate gives %r, the selected class %s gives %r" % (have, want_cls.__name__, want))
             # --- an explicitly given class always wins
             if rng.random() < 0.25:
@@ -210,7 +239,7 @@ def check_dispatch(rec, rng, registered, history, scratch, future=()):
                     have = outcome(lambda: jsonschema.validate(inst, schema, cls=other, resolver=RefResolver("", schema, store=dict(STORE))))
                 want = expected_outcome(other, schema, inst)
                 rec.count("explicit_cls_checked")
-                if have != want:
+                if want != have:
                     rec.violation("explicit-class-does-not-win", case, "cls=%s: validate gives %r, that class gives %r" % (other.__name__, have, want))
             # --- the CLI without --validator
             local_refs_only = "doc.json" not in json.dumps(schema)
